@@ -10,6 +10,7 @@ lib.repo_env.shim()
 from lib import e4, e4_corpus
 from guppylang_internals.error import GuppyError
 from crosshair.tracers import NoTracing
+from crosshair.core import realize
 
 KIND = os.environ.get("VERIF_E4_KIND", "c03")
 N = int(os.environ.get("VERIF_E4_N", "20"))
@@ -100,6 +101,8 @@ def h_equiv(which: int, x: int, y: int, r0: int, r1: int, r2: int, r3: int, r4: 
             prog = PROGS[i]
     if prog is None:
         return True   # rejected by the real checker: nothing is claimed about it here
+    if "# enumerate: x" in prog.src:
+        x = realize(x)
     if KIND == "c32":
         dropped = e4_syntax.silently_dropped_clause(prog.src)
         if dropped:
